@@ -106,6 +106,9 @@ def spell(kind, d, n, e):
         return ['s', cps(join_parts(d, n, e))]
     if kind == 'p':
         return ['p', cps(d), cps(n + ('.' + e if e else ''))]
+    if kind == 'z' and e:
+        # fourth spelling: a 3-tuple whose extension part is empty while the name part carries ".ext"
+        return ['t', cps(d), cps(n + '.' + e), []]
     return ['t', cps(d), cps(n), cps(e)]
 
 
@@ -254,7 +257,7 @@ class ImplWorld:
             'reads': reads,
             'verify': ver,
             'len': len(v),
-            'spell': [[(nm in v) and (v[nm] is i) for nm in (py_name(spell(kd, *k)) for kd in 'spt')] for k, i in infos],
+            'spell': [[(nm in v) and (v[nm] is i) for nm in (py_name(spell(kd, *k)) for kd in 'sptz')] for k, i in infos],
             'dirfile': None if d['dir'] is None else digest(d['dir']),
             'arch': [[k, digest(b)] for k, b in sorted(d['arch'].items())],
         }
@@ -357,6 +360,26 @@ def get_parts(name):
     return _get_file_parts(py_name(name))
 
 
+def ref_parts(name):
+    """INDEPENDENT statement of how a name denotes (folder, name, extension) — what `_get_file_parts` does on the
+    unchanged tree, written with posixpath directly; the oracle uses this, never the implementation's own function
+    (compared with it and with the Lean model on every run)."""
+    import posixpath
+    v = py_name(name)
+    if isinstance(v, str):
+        path, fn = posixpath.split(v); ext = ''
+    elif len(v) == 2:
+        path, fn = v; ext = ''
+    else:
+        path, fn, ext = v
+    if not ext and '.' in fn:
+        fn, ext = fn.rsplit('.', 1)
+    path = posixpath.normpath(path).replace('\\', '/').rstrip('/')
+    if path == '.':
+        path = ''
+    return path, fn, ext
+
+
 def spellable(d, n, e):
     """the three spellings of (d, n, e) must resolve to it (hypotheses of C13_names)"""
     return ('/' not in n and '/' not in e and '.' not in e and not (e == '' and '.' in n) and not d.endswith('/')
@@ -364,8 +387,7 @@ def spellable(d, n, e):
 
 
 def _is_clean(d):
-    from srctools.vpk import _get_file_parts
-    return _get_file_parts((d, 'x', 'y'))[0] == d
+    return ref_parts(['t', cps(d), cps('x'), cps('y')])[0] == d
 
 
 def is_ascii_name(s):
@@ -478,7 +500,7 @@ def run_case(case, oracle=True, capture=0, hist=None):
         for n, op in enumerate(case['ops']):
             if w.form_fail:
                 fails.append(('argforms', w.form_fail, n)); w.form_fail = None
-            want = spec.step(op, get_parts) if spec else None
+            want = spec.step(op, ref_parts) if spec else None
             if op[0] == 'check':
                 obs = w.observe(full=True)
                 datas = obs.pop('_datas', None); disk = obs.pop('_disk', None)
@@ -506,7 +528,7 @@ def run_case(case, oracle=True, capture=0, hist=None):
                 if obs['len'] != len(exp):
                     fails.append(('listing', f'len() = {obs["len"]} with {len(exp)} files', n))
                 for t in exp:
-                    for kd in (('s', 'p', 't') if spellable(*t) else ('t',)):
+                    for kd in (('s', 'p', 't', 'z') if spellable(*t) else ('t',)):
                         nm = py_name(spell(kd, *t))
                         try:
                             ok = (nm in w.vpk) and w.vpk[nm].read() == spec.cur[t]
@@ -516,7 +538,7 @@ def run_case(case, oracle=True, capture=0, hist=None):
                             fails.append(('lookup', f'{nm!r} (a spelling of {t}) is not found by `in` / [] or reads other data', n))
                 for t in getattr(spec, 'gone', ()):
                     if t not in spec.cur and spellable(*t):
-                        for kd in 'spt':
+                        for kd in 'sptz':
                             nm = py_name(spell(kd, *t))
                             found = nm in w.vpk
                             try:
@@ -614,7 +636,7 @@ DIRS = ['', 'a', 'a/b', 'materials/models', 'x y', 'A', 'a.b', '..', 'a\udc80']
 # unnormalised spellings of the directory part that _get_file_parts must map to the same folder
 DIR_SPELL = {'a': ['a', './a', 'a/', 'a//', 'a/.', 'b/../a', 'a\\'], 'a/b': ['a/b', 'a//b', 'a\\b', 'a/./b', 'a/b/'],
              '': ['', '.', './', '/']}
-NAMES = ['n', '', 'file', 'N', 'n n', 'n\udcff', 'n.m']
+NAMES = ['n', '', 'file', 'N', 'n n', 'n\udcff', 'n.m', 'a.b.c', '.lead', 'n..m']
 EXTS = ['', 'txt', 'e', 'vmt', 'T', 'e\udc9f']
 BAD_NAMES = ['é', 'nĀ', '\ud800']   # rejected by new_file (not ASCII / surrogateescape)
 
@@ -648,13 +670,11 @@ def gen_triple(rng):
 
 def gen_name(rng, trip):
     d, n, e = trip
-    kind = rng.choice('spt')
+    kind = rng.choice('sptz')
     if rng.random() < 0.15 and d in DIR_SPELL:
         d = rng.choice(DIR_SPELL[d])
         if kind == 's' and d.endswith(('/', '\\')) or (kind == 's' and d in ('.', '/', './')):
             kind = rng.choice('pt')
-    if kind == 's' and '.' in n:
-        kind = 't'
     if rng.random() < 0.02:
         n = n + rng.choice(BAD_NAMES)
     return spell(kind, d, n, e)
